@@ -57,7 +57,7 @@ theorem parseStage_marshal (σ : Schema) (O : Oracles)
 theorem ctorStage_valid (σ : Schema) (O : Oracles) (m : Msg) (hst : σ.strict O m = true) (hres : σ.residual O m = true) :
     σ.ctorStage O m = .ok () := by
   unfold Schema.ctorStage
-  rw [ctorOpts_ok hres σ.opts (fun _ h => h), ctorCross_ok σ.cross (residual_parts hres).2.2]
+  rw [ctorOpts_ok hres σ.opts (fun _ h => h), ctorCross_ok σ.ctorErr σ.cross (residual_parts hres).2.2]
   simp only [bind, Except.bind]
   cases htl : σ.tail with
   | none => rfl
